@@ -202,9 +202,22 @@ def run_case(ctx, case):
     vanish = (kc == "const") or (not cyc and ((kind == "pwl_hessian" and kc in ("index_linear",)) or
                                               (kind == "pwl_wrinkle" and kc in ("index_linear", "index_quadratic"))))
     ctx.cls("kind:" + kind, "cyclic:%s" % cyc, "kernel:" + kc, "rows:%d" % case["rows"], "units:%d" % case["units"])
-  val = float(np.asarray(make(l1, l2)(tf.constant(w))))
+  # a share of the kernels in float64 (judged at float64 resolution), a share of the evaluations inside tf.function, and the
+  # regularizer object is used on another kernel first (a regularizer keeps no state between calls)
+  f64 = case["seed"] % 6 == 0
+  w = np.asarray(w, dtype=np.float64 if f64 else np.float32)
+  reg = make(l1, l2)
+  if case["seed"] % 3 == 1:
+    reg(tf.constant((w[::-1] * 0.5 + 1.0).astype(w.dtype)))
+    ctx.cls("regularizer:reused-object")
+  if case["seed"] % 5 == 2:
+    val = float(np.asarray(tf.function(lambda t: reg(t))(tf.constant(w))))
+    ctx.cls("mode:graph")
+  else:
+    val = float(np.asarray(reg(tf.constant(w))))
+  ctx.cls("dtype:float64" if f64 else "dtype:float32")
   want, U = ref(l1, l2)
-  tol = 2e-5 * max(1.0, U)
+  tol = (1e-11 if f64 else 2e-5) * max(1.0, U)
   e = abs(val - want)
   ctx.check("regularizer/oracle-equal", e <= tol and val >= -tol,
             "%s = %.9g, documented formula gives %.9g (err %.3g, tol %.3g)" % (kind, val, want, e, tol),
@@ -225,7 +238,7 @@ def run_case(ctx, case):
   r_1 = float(np.asarray(make(l1, zero2)(tf.constant(w))))
   r_2 = float(np.asarray(make(zero1, l2)(tf.constant(w))))
   lin = a * r_1 + b * r_2
-  t2 = 4e-5 * max(1.0, (a + b) * U)
+  t2 = (2e-11 if f64 else 4e-5) * max(1.0, (a + b) * U)
   ctx.check("regularizer/linear-in-l1-l2", abs(r_ab - lin) <= t2 and r_1 >= -tol and r_2 >= -tol,
             "%s not linear in (l1,l2): R(a*l1,b*l2)=%.9g vs a*R(l1,0)+b*R(0,l2)=%.9g" % (kind, r_ab, lin),
             info={"a": a, "b": b})
@@ -233,13 +246,13 @@ def run_case(ctx, case):
   if case["via_layer"]:
     if lat:
       name = "laplacian" if kind == "lat_laplacian" else "torsion"
-      layer = tfl.layers.Lattice(lattice_sizes=sizes, units=case["units"], kernel_regularizer=(name, l1, l2))
+      layer = tfl.layers.Lattice(lattice_sizes=sizes, units=case["units"], kernel_regularizer=(name, l1, l2), dtype=str(w.dtype))
       layer.build((None, len(sizes)) if case["units"] == 1 else (None, case["units"], len(sizes)))
     else:
       name = kind.replace("pwl_", "")
       rows = case["rows"] + (1 if case["cyclic"] else 0)
       layer = tfl.layers.PWLCalibration(input_keypoints=list(np.arange(rows, dtype=float)), units=case["units"],
-                                        is_cyclic=case["cyclic"], kernel_regularizer=(name, l1, l2))
+                                        is_cyclic=case["cyclic"], kernel_regularizer=(name, l1, l2), dtype=str(w.dtype))
       layer.build((None, 1))
     layer.kernel.assign(w)
     losses = layer.losses
